@@ -1032,6 +1032,70 @@ def cells(ctx):
             ctx.outcome("TraitError-item")
 
 
+    # (d) the same container trait declared in its other supported forms:
+    # legacy Trait(default, container trait), on the class and through
+    # add_trait; the *default* (never assigned) is as guarded as any value
+    from traits.api import Trait as _T
+    forms = {
+        "list": (lambda: _T([1, 2], _L(Int, maxlen=3)),
+                 lambda v: v.append("bad"), lambda v: v.extend([3, 4, 5]),
+                 lambda v: v.append(3)),
+        "dict": (lambda: _T({"a": 1}, _D(Str, Int)),
+                 lambda v: v.__setitem__("b", "bad"),
+                 lambda v: v.update({5: 1}), lambda v: v.__setitem__("b", 2)),
+        "set": (lambda: _T({1}, _S(Int)),
+                lambda v: v.add("bad"), lambda v: v.update({2, "x"}),
+                lambda v: v.add(2)),
+    }
+    for kind, (mk, inv1, inv2, valid) in forms.items():
+        for how in ("class", "add_trait"):
+            case = {"cell": "legacy-declaration", "kind": kind, "how": how}
+            ctx.case({"config": "cells", "state": [], "steps": [], **case})
+            ctx.ev()
+            ctx.tr()
+            try:
+                if how == "class":
+                    class H4(HasTraits):
+                        c = mk()
+                    objs = [H4(), H4()]
+                else:
+                    objs = [HasTraits(), HasTraits()]
+                    for o in objs:
+                        o.add_trait("c", mk())
+                v = objs[0].c
+            except Exception as exc:
+                bad("legacy-declaration:raises:%s:%s" % (kind, how),
+                    "declaring / reading raised %r" % (exc,), **case)
+                continue
+            before = repr(v)
+            for i, inv in enumerate((inv1, inv2)):
+                try:
+                    inv(v)
+                    bad("legacy-declaration:default-unguarded:%s:%s" % (
+                        kind, how), "the never-assigned default of "
+                        "Trait(<default>, <%s trait>) accepted an invalid "
+                        "mutation; it now reads %r" % (kind, v), **case)
+                    break
+                except TraitError:
+                    ctx.outcome("TraitError-item")
+                if repr(v) != before:
+                    bad("legacy-declaration:refused-changed:%s:%s" % (
+                        kind, how), "a refused mutation changed the default "
+                        "to %r" % (v,), **case)
+            try:
+                valid(v)
+            except Exception as exc:
+                bad("legacy-declaration:valid-refused:%s:%s" % (kind, how),
+                    "a valid mutation of the default raised %r" % (exc,),
+                    **case)
+                continue
+            other = objs[1].c
+            if other is v or repr(other) != before:
+                bad("legacy-declaration:shared-default:%s:%s" % (kind, how),
+                    "the default is shared between instances (the other "
+                    "instance reads %r)" % (other,), **case)
+
+
 def shards(tier):
     out = [{"kind": "cells", "config": "cells"}]
     n = 4 if tier == "quick" else 8
